@@ -527,3 +527,76 @@ Proof.
   - exact Hso.
   - intros k0 tid0. rewrite Hreg. unfold spec_chain. apply (spec_chain_is_live_cells (reg_of regs) (bs1 ++ bs2) k0 tid0 Hpos Href).
 Qed.
+
+(* ---------------------------------------------------------------------------------------------- *)
+(* blocks in ascending order: "inputs name transactions at lower positions" follows from "inputs name earlier transactions" *)
+Definition pos_lt (p q : ptx) : Prop := fst (fst p) < fst (fst q) \/ (fst (fst p) = fst (fst q) /\ snd (fst p) < snd (fst q)).
+
+Definition ascending (bs : list block) : Prop := StronglySorted (fun a b => b_number a < b_number b) bs.
+
+Lemma sorted_app {A} (R : A -> A -> Prop) (l1 l2 : list A) :
+  StronglySorted R l1 -> StronglySorted R l2 -> (forall x y, In x l1 -> In y l2 -> R x y) -> StronglySorted R (l1 ++ l2).
+Proof.
+  induction l1 as [|a l1 IH]; intros H1 H2 Hc; [exact H2|]. cbn [app]. inversion H1 as [|? ? Hs Hall]; subst.
+  constructor.
+  - apply IH; [exact Hs | exact H2 | intros x y Hx Hy; apply Hc; [right; exact Hx | exact Hy]].
+  - apply Forall_app. split; [exact Hall|]. apply Forall_forall. intros y Hy. apply Hc; [left; reflexivity | exact Hy].
+Qed.
+
+Lemma indexed_sorted {A} (l : list A) : forall i, StronglySorted (fun a b : N * A => fst a < fst b) (indexed i l).
+Proof.
+  induction l as [|a l IH]; intros i; [constructor|]. cbn [indexed]. constructor; [apply IH|].
+  apply Forall_forall. intros [j b] Hin. apply indexed_in in Hin. destruct Hin as [_ Hle]. cbn [fst]. lia.
+Qed.
+
+Lemma sorted_map {A B} (R : A -> A -> Prop) (S : B -> B -> Prop) (f : A -> B) (l : list A) :
+  (forall a b, R a b -> S (f a) (f b)) -> StronglySorted R l -> StronglySorted S (map f l).
+Proof.
+  intros Hf. induction 1 as [|a l Hs IH Hall]; [constructor|]. cbn [map]. constructor; [exact IH|].
+  apply Forall_forall. intros y Hy. apply in_map_iff in Hy. destruct Hy as [x [<- Hx]]. apply Hf. rewrite Forall_forall in Hall. apply Hall. exact Hx.
+Qed.
+
+Lemma chain_txs_sorted bs : ascending bs -> StronglySorted pos_lt (chain_txs bs).
+Proof.
+  unfold ascending. induction 1 as [|b bs Hs IH Hall]; [constructor|].
+  cbn [chain_txs flat_map]. apply sorted_app.
+  - unfold block_txs. apply (sorted_map (fun a b0 : N * tx => fst a < fst b0)); [|apply indexed_sorted].
+    intros a b0 Hlt. right. cbn [fst snd]. split; [reflexivity | exact Hlt].
+  - exact IH.
+  - intros x y Hx Hy. unfold block_txs in Hx. apply in_map_iff in Hx. destruct Hx as [[i t] [<- _]].
+    destruct y as [[yb yi] yt]. apply chain_txs_in in Hy. destruct Hy as [blk [Hblk [Hn _]]]. left. cbn [fst snd].
+    rewrite Forall_forall in Hall. rewrite <- Hn. apply Hall. exact Hblk.
+Qed.
+
+Lemma sorted_split_before {A} (R : A -> A -> Prop) (l : list A) : forall l1 q l2, StronglySorted R l -> l = l1 ++ q :: l2 -> forall y, In y l1 -> R y q.
+Proof.
+  induction l as [|a l IH]; intros l1 q l2 Hs Heq y Hy; [destruct l1; discriminate|].
+  destruct l1 as [|a' l1]; [destruct Hy|]. cbn [app] in Heq. inversion Heq; subst a' l. inversion Hs as [|? ? Hs' Hall]; subst.
+  destruct Hy as [->|Hy].
+  - rewrite Forall_forall in Hall. apply Hall. apply in_or_app. right. left. reflexivity.
+  - eapply IH; [exact Hs' | reflexivity | exact Hy].
+Qed.
+
+Theorem ascending_lower_positions bs :
+  ascending bs -> refs_backwards (chain_txs bs) -> lower_positions (chain_txs bs).
+Proof.
+  intros Ha Href bn ti tr inp g Hq Hinp Hg Hid.
+  apply in_split in Hq. destruct Hq as [l1 [l2 HL]].
+  assert (Hg1 : In g l1).
+  { rewrite HL in Hg. apply in_app_or in Hg. destruct Hg as [Hg|Hg]; [exact Hg|]. exfalso.
+    exact (Href l1 (bn, ti, tr) l2 HL inp Hinp g Hg Hid). }
+  pose proof (sorted_split_before pos_lt _ l1 (bn, ti, tr) l2 (chain_txs_sorted bs Ha) HL g Hg1) as Hlt.
+  exact Hlt.
+Qed.
+
+(* the end-to-end theorem for blocks in ascending order *)
+Theorem rollback_restores_index_ascending regs bs1 bs2 n :
+  well_formed_chain (bs1 ++ bs2) -> ascending (bs1 ++ bs2) -> refs_backwards (chain_txs (bs1 ++ bs2)) -> spent_once (chain_txs (bs1 ++ bs2)) ->
+  (forall b, In b bs1 -> b_number b < n) -> (forall b, In b bs2 -> n <= b_number b) ->
+  NoDup (map (fun x => (ss_type x, ss_script x)) regs) ->
+  exists st', rollback_to_block (fold_left filter_block (bs1 ++ bs2) (fresh_store regs)) n = Ok st' /\
+              forall k, a_get ckey_eqb k (cells st') = spec_chain (reg_of regs) bs1 k.
+Proof.
+  intros Hwf Ha Href Hso Hb1 Hb2 Hnd. apply rollback_restores_index; try assumption.
+  apply ascending_lower_positions; assumption.
+Qed.
